@@ -1,0 +1,38 @@
+//go:build verif
+
+package keep_fields
+
+// Contracts for the verification harness under /verif (comment-only file).
+//
+// C18: traverseFieldsTree uses one delete buffer per depth.  height(n) is the
+// ghost height of a path-tree node (0 for a leaf); children are strictly lower
+// (data invariant of the tree built in Start, assumed at the map lookup).  Under
+// depth + height <= number of buffers every buffer index is in range, the buffer of
+// this depth is empty again on return (so nothing leaks into the next sibling or
+// the next event), and the buffers of other depths keep their lengths.
+
+//@ func (*Plugin).traverseFieldsTree
+//@   requires 0 <= depth && uf_height(ref(fpNode.children)) >= 0 && depth + uf_height(ref(fpNode.children)) <= len(p.fieldsDepthSlice)
+//@   requires len(fpNode.children) != 0 ==> uf_height(ref(fpNode.children)) >= 1
+//@   requires forall k :: depth <= k && k < len(p.fieldsDepthSlice) ==> len(p.fieldsDepthSlice[k]) == 0
+//@   ensures len(p.fieldsDepthSlice) == old(len(p.fieldsDepthSlice))
+//@   ensures forall k :: depth <= k && k < len(p.fieldsDepthSlice) ==> len(p.fieldsDepthSlice[k]) == 0
+//@   loop 1 invariant len(p.fieldsDepthSlice) == old(len(p.fieldsDepthSlice)) && rangeindex >= -1 && depth < len(p.fieldsDepthSlice)
+//@   loop 1 invariant forall k :: depth < k && k < len(p.fieldsDepthSlice) ==> len(p.fieldsDepthSlice[k]) == 0
+//@   loop 2 invariant len(p.fieldsDepthSlice) == old(len(p.fieldsDepthSlice)) && depth < len(p.fieldsDepthSlice)
+//@   loop 2 invariant forall k :: depth < k && k < len(p.fieldsDepthSlice) ==> len(p.fieldsDepthSlice[k]) == 0
+//@   callee maplookup:children(k) (v, ok)
+//@     ensures ok ==> uf_height(ref(v.children)) >= 0 && uf_height(ref(v.children)) < uf_height(ref(fpNode.children))
+//@     ensures ok && len(v.children) != 0 ==> uf_height(ref(v.children)) >= 1
+//@   callee traverseFieldsTree(f, e, d)
+//@     requires d == depth + 1
+//@   callee IsObject()
+//@     pure
+//@   callee AsFields()
+//@     pure
+//@   callee AsString()
+//@     pure
+//@   callee Dig(f)
+//@     preserves Plugin, []string
+//@   callee Suicide()
+//@     preserves Plugin, []string
